@@ -65,6 +65,12 @@ pub fn gen(rng: &mut Rng, tier: Tier) -> Scn {
         if scheme != Scheme::NoCode || tier == Tier::Thorough {
             let max = oti.max_transfer_length() as usize;
             o.len = if rng.chance(0.5) { max } else { max + 1 };
+            if rng.chance(0.4) {
+                // incompressible content GROWS when it is content-encoded: what counts is the transfer length
+                // (content length <= max < transfer length must be refused as well)
+                o.cenc = *rng.pick(&[CencSpec::Zlib, CencSpec::Deflate, CencSpec::Gzip]);
+                o.len = max.saturating_sub(rng.range(0, 40) as usize);
+            }
             o.oti = Some(oti);
             o.prio = spec.queues[0].0;
             objects.push(o);
